@@ -110,11 +110,11 @@ Ltac nstep :=
   end.
 
 Lemma created_of_state : forall th st, th_state th = st -> st <> NOTCREATED -> created th = true.
-Proof. intros th st E N. unfold created. rewrite E. destruct st; auto. congruence. Qed.
+Proof. intros th st E N. unfold created. rewrite E. destruct st; auto; congruence. Qed.
 
 Lemma Nrel_switch_in : forall s n, created (s_th s n) = true -> Nrel s (switch_in s n).
 Proof.
-  intros s n Hc. unfold switch_in. apply Nrel_modth_st; auto. intro th. destruct (th_fresh th); cbn; repeat split; auto.
+  intros s n Hc. unfold switch_in. apply Nrel_modth_st; [exact Hc|]. intro th. destruct (th_fresh th); cbn; repeat split; auto.
 Qed.
 Lemma Nrel_dequeue : forall s t, Nrel s (dequeue s t).
 Proof. intros. unfold dequeue. destruct (th_waitq _); repeat nstep. Qed.
@@ -127,8 +127,8 @@ Proof.
   assert (C1 : created (s_th s1 t) = true).
   { rewrite (created_rel s s1 t R). eapply created_of_state; eauto. discriminate. }
   destruct (Nat.eqb _ v); (apply (Nrel_trans s s1); [exact R|]).
-  - nstep. apply Nrel_modth_st; auto. intro th. cbn. repeat split; auto.
-  - nstep. apply Nrel_modth_st; auto. intro th. cbn. repeat split; auto.
+  - nstep. apply Nrel_modth_st; [exact C1|intro th; cbn; repeat split; auto].
+  - nstep. apply Nrel_modth_st; [exact C1|intro th; cbn; repeat split; auto].
 Qed.
 Lemma Nrel_interrupt : forall s v t e s', do_interrupt s v t e = Some s' -> Nrel s s'.
 Proof.
@@ -141,3 +141,418 @@ Proof. intros. unfold ret. nstep. apply Nrel_same; reflexivity. Qed.
 Lemma Nrel_setk : forall s c k, Nrel s (setk s c k). Proof. intros. unfold setk. repeat nstep. Qed.
 Lemma Nrel_sen : forall s c, Nrel s (fst (fst (set_error_number s c))).
 Proof. intros. unfold set_error_number. destruct (Z.eqb _ 0); cbn; repeat nstep. Qed.
+
+(* ---- one thread changes its contribution ------------------------------------------------------ *)
+Lemma invN_upd1 : forall s s' t, InvN s -> t < s_n s ->
+  same_cfg s s' ->
+  (forall x, x <> t -> Nsame (s_th s' x) (s_th s x)) ->
+  (is_user (th_kind (s_th s' t)) = false -> th_ws (s_th s' t) = false) ->
+  (forall v f x u, v_pend (s_vc s' v) = PSwitch f (DMigrate x u) -> exists v0 f0, v_pend (s_vc s v0) = PSwitch f0 (DMigrate x u)) ->
+  (is_user (th_kind (s_th s t)) = true -> is_user (th_kind (s_th s' t)) = true) ->
+  (forall v, (v_nthreads (s_vc s' v) + Z.of_nat (b2n (counts s v t)) = v_nthreads (s_vc s v) + Z.of_nat (b2n (counts s' v t)))%Z) ->
+  InvN s'.
+Proof.
+  intros s s' t I Ht [Cn Cv] Hx Hk Hp Hm Hn. constructor.
+  - intro x. destruct (Nat.eq_dec x t) as [->|N]; auto. destruct (Hx x N) as (a&b&_). rewrite a, b. apply (n_kind _ I).
+  - intro x. rewrite Cn. destruct (Nat.eq_dec x t) as [->|N]; auto. destruct (Hx x N) as (a&_&_&_&e). rewrite a, e. apply (n_range _ I).
+  - intros v f x u E. destruct (Hp v f x u E) as (v0 & f0 & E0). pose proof (n_mig _ I v0 f0 x u E0) as U.
+    destruct (Nat.eq_dec x t) as [->|N]; auto. destruct (Hx x N) as (a&_). rewrite a. exact U.
+  - intro v. specialize (Hn v). rewrite (n_cnt _ I v) in Hn. unfold base in *. rewrite Cv.
+    pose proof (users_upd s s' v t Cn) as U.
+    assert (U' : users_on s' v + b2n (counts s v t) = users_on s v + b2n (counts s' v t)).
+    { apply U; auto. intros x N. apply counts_rel. auto. }
+    lia.
+Qed.
+
+Definition pendN_ok (s : state) (p : pending) : Prop :=
+  match p with PSwitch _ (DMigrate t _) => is_user (th_kind (s_th s t)) = true | _ => True end.
+Lemma invN_pend : forall s v g p, InvN s -> pendN_ok s p ->
+  (forall x, v_nthreads (g x) = v_nthreads x /\ v_pend (g x) = p) -> InvN (modvc s v g).
+Proof.
+  intros s v g p I P Hg. constructor.
+  - intro t. rewrite th_modvc. apply (n_kind _ I).
+  - intro t. rewrite th_modvc. apply (n_range _ I).
+  - intros v0 f t u. rewrite vc_modvc, th_modvc. destruct (Nat.eqb v0 v) eqn:E; [|apply (n_mig _ I)].
+    destruct (Hg (s_vc s v)) as [_ ->]. intro Ep. subst p. exact P.
+  - intro v0. rewrite vc_modvc. unfold base, users_on. cbn [s_nv s_n modvc set_s_vc].
+    assert (U : length (filter (counts (modvc s v g) v0) (seq 0 (s_n s))) = length (filter (counts s v0) (seq 0 (s_n s)))).
+    { reflexivity. }
+    change (s_n (modvc s v g)) with (s_n s). change (s_nv (modvc s v g)) with (s_nv s).
+    rewrite U. destruct (Nat.eqb v0 v) eqn:E; [|apply (n_cnt _ I)].
+    apply Nat.eqb_eq in E. subst v0. destruct (Hg (s_vc s v)) as [-> _]. apply (n_cnt _ I).
+Qed.
+Lemma pendN_ok_rel : forall s s' p, Nrel s s' -> pendN_ok s p -> pendN_ok s' p.
+Proof.
+  intros s s' p (Ht & _) P. destruct p as [|f d|t]; auto. destruct d as [|t|t u]; auto.
+  cbn in *. destruct (Ht t) as (a&_). congruence.
+Qed.
+
+Lemma head_created : forall s v c rest, Inv1 s -> v_runq (s_vc s v) = c :: rest -> forall n, cnt n (c :: rest) >= 1 -> created (s_th s n) = true.
+Proof.
+  intros s v c rest I Hq n Hn. rewrite <- Hq in Hn.
+  destruct (in_runq_facts s n v (i_placed _ I n v) Hn) as (l1 & _). unfold live in l1. unfold created.
+  apply andb_true_iff in l1. tauto.
+Qed.
+
+Lemma invN_yield : forall s v ce d, Inv1 s -> InvN s -> head_run s v -> (forall c, pendN_ok s (PSwitch c d)) -> InvN (do_yield s v ce d).
+Proof.
+  intros s v ce d I1 I Hr P. unfold do_yield, getvc.
+  destruct (v_runq (s_vc s v)) as [|c [|n rest]] eqn:Hq; try (apply (invN_frame s); [apply Nrel_same; reflexivity|auto]).
+  assert (Cn : created (s_th s n) = true). { apply (head_created s v c (n :: rest) I1 Hq). rewrite !cnt_cons, Nat.eqb_refl. lia. }
+  set (s2 := modth (switch_in s n) c _).
+  assert (R : Nrel s s2).
+  { unfold s2. apply (Nrel_trans s (switch_in s n)); [now apply Nrel_switch_in|].
+    apply Nrel_modth_st.
+    - rewrite (created_rel s _ c (Nrel_switch_in s n Cn)). eapply created_of_state; [apply (Hr c _ Hq)|discriminate].
+    - intro th. destruct ce; cbn; repeat split; auto. }
+  apply (invN_pend s2 v _ (PSwitch c d)); [apply (invN_frame s); auto|eapply pendN_ok_rel; eauto|intro; split; reflexivity].
+Qed.
+
+Lemma invN_sleep : forall s v exp wq d, Inv1 s -> InvN s -> head_run s v -> (forall c, pendN_ok s (PSwitch c d)) -> InvN (do_sleep s v exp wq d).
+Proof.
+  intros s v exp wq d I1 I Hr P. unfold do_sleep, getvc.
+  destruct (v_runq (s_vc s v)) as [|c [|n rest]] eqn:Hq; try (apply (invN_frame s); [apply Nrel_same; reflexivity|auto]).
+  assert (Cn : created (s_th s n) = true). { apply (head_created s v c (n :: rest) I1 Hq). rewrite !cnt_cons, Nat.eqb_refl. lia. }
+  set (s2 := modth (switch_in s n) c _).
+  assert (R2 : Nrel s s2).
+  { unfold s2. apply (Nrel_trans s (switch_in s n)); [now apply Nrel_switch_in|].
+    apply Nrel_modth_st.
+    - rewrite (created_rel s _ c (Nrel_switch_in s n Cn)). eapply created_of_state; [apply (Hr c _ Hq)|discriminate].
+    - intro th. cbn. repeat split; auto. }
+  set (s3 := match wq with Some x => modth s2 x _ | None => s2 end).
+  assert (R3 : Nrel s s3). { unfold s3. destruct wq; auto. apply (Nrel_trans s s2); auto. apply Nrel_modth. nsame. }
+  match goal with |- InvN (if ?b then set_s_tie ?X true else ?X) =>
+    assert (IX : InvN X); [| destruct b; auto; apply (invN_frame X); [apply Nrel_same; reflexivity|auto]] end.
+  apply (invN_pend s3 v _ (PSwitch c d)); [apply (invN_frame s); auto|eapply pendN_ok_rel; eauto|intro; split; reflexivity].
+Qed.
+
+Ltac pend_case v0 v := 
+  rewrite ?vc_modvc, ?vc_modth; destruct (Nat.eqb v0 v) eqn:?E; [apply Nat.eqb_eq in E; subst v0|].
+
+Lemma invN_create : forall s v k jn ws, InvN s -> th_state (s_th s k) = NOTCREATED -> k < s_n s -> InvN (do_create s v k jn ws).
+Proof.
+  intros s v k jn ws I En Hk. unfold do_create, getth.
+  eapply (invN_upd1 s _ k I Hk).
+  - split; reflexivity.
+  - intros x N. rewrite th_modvc. cbn [s_th set_s_th]. rewrite updp_neq by auto. apply Nsame_refl.
+  - rewrite th_modvc. cbn [s_th set_s_th]. rewrite updp_eq. cbn. discriminate.
+  - intros v0 f x u. rewrite vc_modvc. destruct (Nat.eqb v0 v) eqn:E.
+    + apply Nat.eqb_eq in E. subst v0. cbn. intro X. exists v, f. exact X.
+    + intro X. exists v0, f. exact X.
+  - intros _. rewrite th_modvc. cbn [s_th set_s_th]. rewrite updp_eq. reflexivity.
+  - intro v0. rewrite vc_modvc. unfold counts. rewrite th_modvc. cbn [s_th set_s_th]. rewrite updp_eq. cbn.
+    unfold created. rewrite En. cbn. rewrite andb_false_r. cbn.
+    destruct (Nat.eqb v0 v) eqn:E.
+    + apply Nat.eqb_eq in E. subst v0. rewrite Nat.eqb_refl. cbn. lia.
+    + rewrite (Nat.eqb_sym v v0), E. cbn. lia.
+Qed.
+
+Lemma invN_migrate : forall s v t u s' b, Inv2 s -> InvN s -> is_user (th_kind (s_th s t)) = true ->
+  do_migrate s v t u = Some (s', b) -> InvN s'.
+Proof.
+  intros s v t u s' b I2 I Hu. unfold do_migrate, getth, getvc.
+  destruct (negb _); [discriminate|].
+  match goal with |- (if ?c then _ else _) = _ -> _ => destruct c eqn:C end; intro H; inversion H; subst; auto.
+  repeat (apply andb_true_iff in C; destruct C as [C ?]).
+  assert (Es : th_state (s_th s t) = READY) by (destruct (th_state (s_th s t)); try discriminate; reflexivity).
+  assert (Ev : th_vcpu (s_th s t) = v) by (match goal with H : Nat.eqb (th_vcpu _) v = true |- _ => now apply Nat.eqb_eq in H end).
+  assert (Nuv : u <> v).
+  { match goal with H : negb (Nat.eqb u v) = true |- _ => apply negb_true_iff in H; now apply Nat.eqb_neq in H end. }
+  assert (Cr : created (s_th s t) = true) by (eapply created_of_state; eauto; discriminate).
+  assert (Fin : g_finished (s_th s t) = 0). { destruct (I2 t) as (a & _). rewrite a, Es. reflexivity. }
+  eapply (invN_upd1 s _ t I (n_range _ I t Hu Cr)).
+  - split; reflexivity.
+  - intros x N. rewrite !th_modvc, th_modth. apply Nat.eqb_neq in N. rewrite N. apply Nsame_refl.
+  - rewrite !th_modvc, th_modth, Nat.eqb_refl. cbn. rewrite Hu. discriminate.
+  - intros v0 f x u0. rewrite !vc_modvc, vc_modth.
+    destruct (Nat.eqb v0 u) eqn:E1; [apply Nat.eqb_eq in E1; subst v0|].
+    + destruct (Nat.eqb u v); cbn; intro X; eauto.
+    + destruct (Nat.eqb v0 v) eqn:E2; [apply Nat.eqb_eq in E2; subst v0|]; cbn; intro X; eauto.
+  - intros _. rewrite !th_modvc, th_modth, Nat.eqb_refl. cbn. exact Hu.
+  - intro v0. rewrite !vc_modvc, vc_modth. unfold counts. rewrite !th_modvc, th_modth, Nat.eqb_refl. cbn. rewrite Hu, Fin, Ev. unfold created. rewrite Es. cbn.
+    destruct (Nat.eqb v0 u) eqn:E1; [apply Nat.eqb_eq in E1; subst v0|].
+    + rewrite Nat.eqb_refl. replace (Nat.eqb v u) with false by (symmetry; apply Nat.eqb_neq; congruence).
+      replace (Nat.eqb u v) with false by (symmetry; apply Nat.eqb_neq; congruence). cbn. lia.
+    + replace (Nat.eqb u v0) with false by (symmetry; apply Nat.eqb_neq; apply Nat.eqb_neq in E1; congruence).
+      destruct (Nat.eqb v0 v) eqn:E2; [apply Nat.eqb_eq in E2; subst v0; rewrite Nat.eqb_refl; cbn; lia|].
+      rewrite (Nat.eqb_sym v v0), E2. cbn. lia.
+Qed.
+
+Lemma invN_die : forall s v rv s', Inv1 s -> Inv2 s -> InvN s -> head_run s v ->
+  (forall c rest, v_runq (s_vc s v) = c :: rest -> is_user (th_kind (s_th s c)) = true) ->
+  do_die s v rv = Some s' -> InvN s'.
+Proof.
+  intros s v rv s' I1 I2 I Hr Hu. unfold do_die, getvc, getth.
+  destruct (v_runq (s_vc s v)) as [|c [|n rest]] eqn:Hq;
+    try (intro H; inversion H; subst; apply (invN_frame s); [apply Nrel_same; reflexivity|auto]).
+  cbv zeta. match goal with |- (if negb ?b then _ else _) = _ -> _ => destruct b end; cbn [negb]; [|discriminate].
+  intro H. inversion H; subst s'; clear H.
+  pose proof (Hr c _ Hq) as Ec. pose proof (Hu c _ eq_refl) as Uc.
+  assert (Cn : created (s_th s n) = true). { apply (head_created s v c (n :: rest) I1 Hq). rewrite !cnt_cons, Nat.eqb_refl. lia. }
+  assert (Hc : cnt c (v_runq (s_vc s v)) >= 1) by (rewrite Hq; apply cnt_head).
+  destruct (in_runq_facts s c v (i_placed _ I1 c v) Hc) as (_ & Evc & _).
+  set (s1 := match th_joiners (s_th s c) with j :: _ => wake s v j (-1) | [] => s end).
+  assert (R1 : Nrel s s1).
+  { unfold s1. destruct (th_joiners (s_th s c)) as [|j js] eqn:Ej; [apply Nrel_refl|].
+    apply Nrel_wake. destruct (i_waits _ I1 j c) as [A B]. rewrite Ej, cnt_cons, Nat.eqb_refl in A.
+    apply B. destruct (th_waitq (s_th s j)); [discriminate|]. cbn in A. lia. }
+  set (s2 := switch_in s1 n).
+  assert (R2 : Nrel s s2).
+  { apply (Nrel_trans s s1); auto. apply Nrel_switch_in. rewrite (created_rel s s1 n R1). exact Cn. }
+  clearbody s2. clear s1 R1.
+  pose proof (invN_frame s s2 R2 I) as J2. destruct R2 as (Rt & Rv & Rc).
+  destruct (Rt c) as (k1&k2&k3&k4&k5).
+  assert (Fin : g_finished (s_th s c) = 0). { destruct (I2 c) as (a & _). rewrite a, Ec. reflexivity. }
+  assert (Cc : created (s_th s c) = true) by (eapply created_of_state; eauto; discriminate).
+  assert (Hlt : c < s_n s2). { apply (n_range _ J2); [rewrite k1; auto|rewrite k5; auto]. }
+  eapply (invN_upd1 s2 _ c J2 Hlt).
+  - split; reflexivity.
+  - intros x N. rewrite th_modvc, th_modth. apply Nat.eqb_neq in N. rewrite N. apply Nsame_refl.
+  - rewrite th_modvc, th_modth, Nat.eqb_refl. cbn. rewrite k1, Uc. discriminate.
+  - intros v0 f x u. rewrite vc_modvc, vc_modth. destruct (Nat.eqb v0 v) eqn:E; cbn; intro X; [discriminate|eauto].
+  - intros _. rewrite th_modvc, th_modth, Nat.eqb_refl. cbn. rewrite k1. exact Uc.
+  - intro v0. rewrite vc_modvc, vc_modth. unfold counts. rewrite th_modvc, th_modth, Nat.eqb_refl. cbn. rewrite k1, k3, k4, k5, Uc, Cc, Fin, Evc.
+    cbn. destruct (Nat.eqb v0 v) eqn:E.
+    + apply Nat.eqb_eq in E. subst v0. rewrite Nat.eqb_refl. cbn. lia.
+    + rewrite (Nat.eqb_sym v v0), E. cbn. lia.
+Qed.
+
+Lemma live_facts : forall s t, Inv2 s -> live (s_th s t) = true -> created (s_th s t) = true /\ g_finished (s_th s t) = 0.
+Proof.
+  intros s t I2 L. unfold live in L. apply andb_true_iff in L. destruct L as [L1 L2]. split; [exact L1|].
+  destruct (I2 t) as (a & _). rewrite a. apply negb_true_iff in L2. rewrite L2. reflexivity.
+Qed.
+
+Lemma invN_steal : forall s v u t, Inv1 s -> Inv2 s -> InvN s -> InvN (do_steal s v u t).
+Proof.
+  intros s v u t I1 I2 I. unfold do_steal, getth, getvc.
+  destruct (negb _) eqn:G; auto. apply negb_false_iff in G.
+  repeat (apply andb_true_iff in G; destruct G as [G ?]).
+  assert (Nuv : u <> v).
+  { match goal with H : negb (Nat.eqb u v) = true |- _ => apply negb_true_iff in H; now apply Nat.eqb_neq in H end. }
+  assert (Ws : th_ws (s_th s t) = true).
+  { match goal with H : stealable _ = true |- _ => unfold stealable in H; apply andb_true_iff in H; tauto end. }
+  assert (Ut : is_user (th_kind (s_th s t)) = true).
+  { destruct (is_user (th_kind (s_th s t))) eqn:E; auto. rewrite (n_kind _ I t E) in Ws. discriminate. }
+  assert (Main : forall s0, s_th s0 = s_th s -> (forall y, v_nthreads (s_vc s0 y) = v_nthreads (s_vc s y) /\ v_pend (s_vc s0 y) = v_pend (s_vc s y)) ->
+            s_n s0 = s_n s -> s_nv s0 = s_nv s -> live (s_th s t) = true -> th_vcpu (s_th s t) = u ->
+            InvN (modvc (modvc (modth s0 t (fun x => set_th_vcpu x v)) u (fun x => set_v_nthreads x (v_nthreads x - 1)))
+                        v (fun x => set_v_nthreads (set_v_runq x (v_runq x ++ [t])) (v_nthreads x + 1)))).
+  { intros s0 Et Ev En Env L Eu.
+    destruct (live_facts s t I2 L) as [Cr Fin].
+    eapply (invN_upd1 s _ t I (n_range _ I t Ut Cr)).
+    - split; cbn; auto.
+    - intros x N. rewrite !th_modvc, th_modth, Et. apply Nat.eqb_neq in N. rewrite N. apply Nsame_refl.
+    - rewrite !th_modvc, th_modth, Nat.eqb_refl, Et. cbn. rewrite Ut. discriminate.
+    - intros v0 f x u0. rewrite !vc_modvc, vc_modth.
+      destruct (Nat.eqb v0 v) eqn:E1; [apply Nat.eqb_eq in E1; subst v0|].
+      + destruct (Nat.eqb v u); cbn; intro X; [destruct (Ev u) as [_ P]|destruct (Ev v) as [_ P]]; rewrite P in X; eauto.
+      + destruct (Nat.eqb v0 u) eqn:E2; [apply Nat.eqb_eq in E2; subst v0|]; cbn; intro X;
+          [destruct (Ev u) as [_ P]|destruct (Ev v0) as [_ P]]; rewrite P in X; eauto.
+    - intros _. rewrite !th_modvc, th_modth, Nat.eqb_refl, Et. cbn. exact Ut.
+    - intro v0. rewrite !vc_modvc, vc_modth. unfold counts. rewrite !th_modvc, th_modth, Nat.eqb_refl, Et. unfold created in *. cbn.
+      rewrite Ut, Cr, Fin, Eu. cbn.
+      destruct (Nat.eqb v0 v) eqn:E1; [apply Nat.eqb_eq in E1; subst v0|].
+      + rewrite Nat.eqb_refl. replace (Nat.eqb u v) with false by (symmetry; apply Nat.eqb_neq; congruence).
+        replace (Nat.eqb v u) with false by (symmetry; apply Nat.eqb_neq; congruence). cbn.
+        rewrite ?vc_modth. destruct (Ev v) as [P _]. rewrite ?P. lia.
+      + replace (Nat.eqb v v0) with false by (symmetry; apply Nat.eqb_neq; apply Nat.eqb_neq in E1; congruence).
+        destruct (Nat.eqb v0 u) eqn:E2; [apply Nat.eqb_eq in E2; subst v0; rewrite Nat.eqb_refl; cbn; destruct (Ev u) as [P _]; rewrite P; lia|].
+        rewrite (Nat.eqb_sym u v0), E2. cbn. destruct (Ev v0) as [P _]. rewrite P. lia. }
+  destruct (mem_tid t (v_standby (s_vc s u))) eqn:M1.
+  - apply mem_cnt in M1. destruct (in_standby_facts s t u (i_placed _ I1 t u) M1) as (l1 & l2 & _).
+    apply Main; auto. intro y. rewrite vc_modvc. destruct (Nat.eqb y u) eqn:E; [apply Nat.eqb_eq in E; subst y|]; split; reflexivity.
+  - destruct (_ && _) eqn:M2; auto. apply andb_true_iff in M2. destruct M2 as [M2 M3]. apply mem_cnt in M2.
+    destruct (in_runq_facts s t u (i_placed _ I1 t u) M2) as (l1 & l2 & _).
+    apply Main; auto. intro y. rewrite vc_modvc. destruct (Nat.eqb y u) eqn:E; [apply Nat.eqb_eq in E; subst y|]; split; reflexivity.
+Qed.
+
+Lemma Nrel_drain_one : forall s v t, Inv1 s -> Nrel s (drain_one s v t).
+Proof.
+  intros s v t I1. unfold drain_one, getvc. destruct (mem_tid t (v_standby (s_vc s v))) eqn:M; cbn [negb]; [|apply Nrel_refl].
+  apply mem_cnt in M. destruct (in_standby_facts s t v (i_placed _ I1 t v) M) as (l1 & _).
+  nstep. apply Nrel_modth_st.
+  - unfold live in l1. apply andb_true_iff in l1. unfold created. tauto.
+  - intro th. cbn. repeat split; auto.
+Qed.
+Lemma invN_drain_list : forall l s v, Inv1 s -> InvN s -> InvN (drain_list s v l).
+Proof.
+  induction l; cbn; intros s v I1 I; auto. apply IHl; [now apply inv1_drain_one|].
+  eapply invN_frame; [apply Nrel_drain_one; auto|auto].
+Qed.
+Lemma Nrel_resume : forall s v, Nrel s (do_resume s v).
+Proof.
+  intros. unfold do_resume, getvc, getth. destruct (v_sleepq _) as [|t rest]; [apply Nrel_refl|].
+  destruct (Z.ltb _ _); [apply Nrel_refl|]. destruct (negb _); [apply Nrel_refl|].
+  destruct (tstate_eqb (th_state (s_th s t)) SLEEPING) eqn:Es.
+  - assert (Es' : th_state (s_th s t) = SLEEPING) by (destruct (th_state (s_th s t)); try discriminate; reflexivity).
+    nstep. apply (Nrel_trans s (dequeue s t)); [apply Nrel_dequeue|]. apply Nrel_modth_st.
+    + rewrite (created_rel s _ t (Nrel_dequeue s t)). eapply created_of_state; eauto. discriminate.
+    + intro th. cbn. repeat split; auto.
+  - repeat nstep.
+Qed.
+
+Lemma invN_exec_pend : forall s v, Inv2 s -> InvN s -> InvN (exec_pend s v).
+Proof.
+  intros s v I2 I. unfold exec_pend, getvc, getth.
+  destruct (v_pend (s_vc s v)) as [|from d|t] eqn:Ep; auto.
+  - assert (I0 : InvN (modvc s v (fun x => set_v_pend x PNone))).
+    { apply (invN_pend s v _ PNone); [exact I|exact Logic.I|intro; split; reflexivity]. }
+    destruct d as [|t|t u]; auto.
+    + eapply invN_frame; [|exact I0]. apply Nrel_modth. nsame.
+    + destruct (do_migrate _ v t u) as [[s1 b]|] eqn:M; auto.
+      apply (invN_migrate (modvc s v (fun x => set_v_pend x PNone)) v t u s1 b); auto.
+      rewrite th_modvc. eapply n_mig; eauto.
+  - assert (I0 : InvN (modvc s v (fun x => set_v_pend x PNone))).
+    { apply (invN_pend s v _ PNone); [exact I|exact Logic.I|intro; split; reflexivity]. }
+    destruct (th_joinable _); (eapply invN_frame; [|exact I0]); apply Nrel_modth; nsame.
+Qed.
+
+Lemma invN_join_check : forall s v c j, Inv1 s -> InvN s -> head_run s v -> InvN (join_check s v c j).
+Proof.
+  intros s v c j I1 I Hr. unfold join_check, getth.
+  destruct (tstate_eqb _ NOTCREATED). { apply (invN_frame s); [apply Nrel_same; reflexivity|auto]. }
+  destruct (negb (th_joinable _)). { eapply invN_frame; [apply Nrel_ret|auto]. }
+  destruct (negb _); auto.
+  destruct (tstate_eqb _ DONE).
+  - eapply invN_frame; [apply Nrel_ret|]. eapply invN_frame; [|exact I]. apply Nrel_modth. nsame.
+  - destruct (negb _); auto.
+    apply invN_sleep.
+    + apply inv1_setk. apply inv1_neutral; [intro th; repeat split | auto].
+    + eapply invN_frame; [apply Nrel_setk|]. eapply invN_frame; [|exact I]. apply Nrel_modth. nsame.
+    + unfold setk. apply head_run_neutral; [intro th; repeat split|]. apply head_run_neutral; [intro th; repeat split | auto].
+    + intro; exact Logic.I.
+Qed.
+
+Ltac nframe := eapply invN_frame; [first [apply Nrel_ret | apply Nrel_setk | apply Nrel_refl]|].
+Ltac hr_n := unfold setk; apply head_run_neutral; [intro th; repeat split | auto].
+
+Lemma invN_exec_op : forall progs s v c o, Inv1 s -> Inv2 s -> InvN s -> head_run s v -> InvN (exec_op progs s v c o).
+Proof.
+  intros progs s v c o I1 I2 I Hr. unfold exec_op, getth, getvc.
+  destruct o as [d| |j e|j jn ws|j| | |j|j u].
+  - destruct (th_k (s_th s c)) as [|[|k]].
+    + destruct (expired _ _).
+      * apply invN_yield; [now apply inv1_setk|nframe; auto|hr_n|intro; exact Logic.I].
+      * destruct (lock_free _); auto. apply invN_sleep; [now apply inv1_setk|nframe; auto|hr_n|intro; exact Logic.I].
+    + pose proof (Nrel_sen s c) as X. destruct (set_error_number s c) as [[s1 r] e]. cbn in X.
+      nframe. eapply invN_frame; eauto.
+    + destruct (Z.eqb _ 0); nframe; auto.
+  - destruct (th_k (s_th s c)).
+    + apply invN_yield; [now apply inv1_setk|nframe; auto|hr_n|intro; exact Logic.I].
+    + nframe; auto.
+  - destruct (alive progs s j); [|nframe; auto].
+    destruct (do_interrupt s v j e) as [s1|] eqn:D; auto.
+    nframe. eapply invN_frame; [eapply Nrel_interrupt; eauto|auto].
+  - destruct (_ && _) eqn:C; [|nframe; auto].
+    nframe. apply andb_true_iff in C. destruct C as [C1 C]. apply andb_true_iff in C1. destruct C1 as [_ C1].
+    apply invN_create; auto.
+    + unfold getth in C. destruct (th_state (s_th s j)); try discriminate; reflexivity.
+    + now apply Nat.ltb_lt in C1.
+  - destruct (th_k (s_th s c)) as [|[|k]].
+    + destruct (_ && _); [|nframe; auto]. nframe. eapply invN_frame; [|eauto]. apply Nrel_modth. nsame.
+    + now apply invN_join_check.
+    + pose proof (Nrel_sen s c) as X. destruct (set_error_number s c) as [[s1 r] e]. cbn in X.
+      nframe. eapply invN_frame; eauto.
+  - nframe; auto.
+  - nframe; auto.
+  - destruct (_ && _); nframe; auto.
+  - destruct (th_k (s_th s c)); [|nframe; auto].
+    destruct (negb _) eqn:G; [nframe; auto|].
+    apply negb_false_iff in G. repeat (apply andb_true_iff in G; destruct G as [G ?]).
+    destruct (Nat.eqb u v); [nframe; auto|].
+    destruct (Nat.eqb j c) eqn:Ejc.
+    { apply Nat.eqb_eq in Ejc. subst j.
+      apply invN_yield; [now apply inv1_setk|nframe; auto|hr_n|].
+      intro c0. unfold pendN_ok, setk. rewrite th_modth, Nat.eqb_refl. cbn. unfold getth in *. assumption. }
+    destruct (negb (Nat.eqb (th_vcpu (s_th s j)) v)); [nframe; auto|].
+    destruct (negb (tstate_eqb (th_state (s_th s j)) READY)); [nframe; auto|].
+    destruct (do_migrate s v j u) as [[s1 [|]]|] eqn:M; [| |exact I];
+      (nframe; eapply (invN_migrate s v j u); [exact I2|exact I| |exact M]; unfold getth in *; assumption).
+Qed.
+
+Lemma invN_step_vcpu : forall progs s v, Inv1 s -> Inv2 s -> InvN s -> InvN (step_vcpu progs s v).
+Proof.
+  intros progs s v I1 I2 I. unfold step_vcpu, getvc, getth.
+  destruct (negb _). { now apply invN_exec_pend. }
+  destruct (v_runq (s_vc s v)) as [|c rest] eqn:Hq. { apply (invN_frame s); [apply Nrel_same; reflexivity|auto]. }
+  destruct (th_state (s_th s c)) eqn:Es; try (apply (invN_frame s); [apply Nrel_same; reflexivity|auto]).
+  assert (Hr : head_run s v). { intros c' r' E. rewrite Hq in E. inversion E; subst. auto. }
+  destruct (th_kind (s_th s c)) eqn:Ek.
+  - destruct (nth_error _ _); [now apply invN_exec_op|].
+    destruct (th_k (s_th s c)).
+    + destruct (lock_free _); auto. apply invN_sleep; [now apply inv1_setk|nframe; auto|hr_n|intro; exact Logic.I].
+    + pose proof (Nrel_sen s c) as X. destruct (set_error_number s c) as [[s1 r] e]. cbn in X.
+      nframe. eapply invN_frame; eauto.
+  - destruct rest; auto. apply invN_yield; auto. intro; exact Logic.I.
+  - destruct (nth_error _ _); [now apply invN_exec_op|].
+    destruct (do_die s v _) as [s1|] eqn:D; auto. eapply invN_die; eauto.
+    intros c' r' E. rewrite Hq in E. inversion E; subst. rewrite Ek. reflexivity.
+Qed.
+
+Lemma invN_step : forall progs s l, Inv1 s -> Inv2 s -> InvN s -> InvN (step progs s l).
+Proof.
+  intros progs s l I1 I2 I. unfold step. destruct (s_stuck s); [exact I|].
+  destruct l as [v|v|v|v u t|d].
+  - destruct (Nat.ltb _ _); [|exact I]. now apply invN_step_vcpu.
+  - destruct (_ && _); [|exact I]. unfold do_drain. now apply invN_drain_list.
+  - destruct (_ && _); [|exact I]. eapply invN_frame; [apply Nrel_resume|exact I].
+  - destruct (_ && _); [|exact I]. now apply invN_steal.
+  - destruct (Z.leb _ _); [|exact I]. eapply invN_frame; [|exact I]. apply Nrel_same; reflexivity.
+Qed.
+
+Lemma inv12N_run : forall progs ls s, Inv1 s -> Inv2 s -> InvN s ->
+  Inv1 (run progs s ls) /\ Inv2 (run progs s ls) /\ InvN (run progs s ls).
+Proof.
+  induction ls; cbn; intros s I1 I2 IN; auto.
+  destruct (inv12_step progs s a I1 I2). apply IHls; auto. now apply invN_step.
+Qed.
+
+Lemma users_on_zero : forall s v, (forall t, t < s_n s -> counts s v t = false) -> users_on s v = 0.
+Proof.
+  intros s v H. unfold users_on.
+  assert (G : forall l, (forall t, In t l -> counts s v t = false) -> length (filter (counts s v) l) = 0).
+  { induction l as [|a l IH]; cbn; intros; auto. rewrite (H0 a (or_introl eq_refl)). apply IH. intros; apply H0; now right. }
+  apply G. intros t Ht. apply H. apply in_seq in Ht. lia.
+Qed.
+
+Lemma invN_init : forall nv n flags t0, nv <= n -> InvN (init_state nv n flags t0).
+Proof.
+  intros nv n flags t0 Hn. constructor.
+  - intro t. unfold init_state. cbn [s_th].
+    destruct (init_thread_cases nv n t Hn) as [[_ ->]|[[_ ->]|(_ & _ & ->)]]; cbn; intros; try reflexivity; try discriminate.
+  - intro t. unfold init_state. cbn [s_th s_n].
+    destruct (init_thread_cases nv n t Hn) as [[_ ->]|[[_ ->]|(_ & _ & ->)]]; cbn; intros; discriminate.
+  - intros v f t u. unfold init_state. cbn [s_vc]. destruct (init_vcpu_cases nv n flags v) as [(V1 & _)|[V1 E]].
+    + unfold init_vcpu. assert (Nat.ltb v nv = true) as -> by (now apply Nat.ltb_lt). cbn. discriminate.
+    + rewrite E. cbn. discriminate.
+  - intro v. rewrite users_on_zero.
+    + unfold base, init_state. cbn [s_vc s_nv]. unfold init_vcpu. destruct (Nat.ltb v nv); reflexivity.
+    + intros t _. unfold counts, init_state. cbn [s_th].
+      destruct (init_thread_cases nv n t Hn) as [[_ ->]|[[_ ->]|(_ & _ & ->)]]; reflexivity.
+Qed.
+
+(* ---- nthreads_restored ----------------------------------------------------------------------- *)
+Lemma nthreads_proof : forall progs nv n flags t0 s, nv <= n -> reachable progs nv n flags t0 s ->
+  s_n s = n /\ s_nv s = nv /\
+  forall v,
+    (* the counter of a vCPU = main + idler + the program threads that exist, have not finished, and belong to it *)
+    v_nthreads (s_vc s v) = ((if Nat.ltb v nv then 2 else 0) + Z.of_nat (users_on s v))%Z /\
+    (* restored: when every created program thread is DONE the counter is back to its initial value *)
+    ((forall t, is_user (th_kind (s_th s t)) = true -> th_state (s_th s t) = NOTCREATED \/ th_state (s_th s t) = DONE) ->
+       v_nthreads (s_vc s v) = v_nthreads (s_vc (init_state nv n flags t0) v)).
+Proof.
+  intros progs nv n flags t0 s Hn [ls ->].
+  destruct (inv12N_run progs ls _ (inv1_init nv n flags t0 Hn) (inv2_init nv n flags t0 Hn) (invN_init nv n flags t0 Hn))
+    as (I1 & I2 & IN).
+  destruct (cfg_run progs ls (init_state nv n flags t0)) as [Cn Cv]. cbn in Cn, Cv.
+  set (s := run progs (init_state nv n flags t0) ls) in *.
+  split; [exact Cn|split; [exact Cv|]]. intro v.
+  pose proof (n_cnt _ IN v) as E. unfold base in E. rewrite Cv in E. split; [exact E|].
+  intro Q. rewrite E, users_on_zero.
+  - cbn [init_state s_vc]. unfold init_vcpu. destruct (Nat.ltb v nv); cbn; lia.
+  - intros t _. unfold counts. destruct (is_user (th_kind (s_th s t))) eqn:U; auto.
+    destruct (Q t U) as [X|X].
+    + unfold created. rewrite X. reflexivity.
+    + destruct (I2 t) as (a & _). rewrite a, X. cbn. rewrite andb_false_r. reflexivity.
+Qed.
